@@ -227,7 +227,7 @@ def _gen_churn(rng, tier):
     factor = rng.choice([2, 4, 8, 16, 1520])
     nprio = rng.choice([1, 3, 10, 50])
     waves = rng.choice([1, 1, 2] if not long else [1, 2, 3])
-    ops, live, nxt = [], [], 0
+    ops, live, nxt, rk = [], [], 0, {}
 
     def rank():
         return rng.randrange(nprio) - 3
@@ -235,6 +235,7 @@ def _gen_churn(rng, tier):
         grow = rng.randint(70, 220) if not long else rng.randint(100, 350)      # Coq cost is cubic in the length
         for _ in range(grow):
             ops.append(["add", nxt, rank(), rng.randrange(6)])
+            rk[nxt] = ops[-1][2]
             live.append(nxt)
             nxt += 1
             if rng.random() < 0.03:
@@ -242,6 +243,9 @@ def _gen_churn(rng, tier):
         # (tasks popped between waves stay in [live]: removing them later raises KeyError, re-adding them is a fresh add)
         frac = rng.choice([0.6, 0.8, 0.9, 0.97, 1.0])
         rng.shuffle(live)
+        if rng.random() < 0.4:
+            # remove from the top: the tombstones then sit next to each other at the head of the queue
+            live.sort(key=lambda t: -(rk.get(t) or 0))
         burst, live = live[:int(len(live) * frac)], live[int(len(live) * frac):]
         for t in burst:
             r = rng.random()
@@ -323,7 +327,7 @@ def _gen_blong(rng, tier):
         elif r < 0.9:
             kind = rng.random()
             if kind < 0.4:
-                i = rng.choice([0, 0, max(n - 1, 0), rng.randint(0, max(n - 1, 0)), n])
+                i = rng.choice([0, max(n - 1, 0), max(n - 1, 0), rng.randint(0, max(n - 1, 0)), n])
                 ops.append(["pop", i])
                 n -= i < n
             elif kind < 0.7:
